@@ -588,6 +588,10 @@ def _norm_compression_tifffile(
         predictor = compression in ("ADOBE_DEFLATE", "ZSTD", "LZMA")
 
     predictor = _norm_predictor(predictor, dtype)
+    if predictor != 1 and compression not in ("ADOBE_DEFLATE", "LZW", "ZSTD", "LZMA"):
+        # like GDAL: a predictor goes with LZW, DEFLATE, ZSTD and LZMA only, readers
+        # built on libtiff do not undo it for any other codec
+        predictor = 1
     return (predictor, compression, compressionargs)
 
 
